@@ -30,7 +30,7 @@ Definition fmt_root_ok (fo : fmt_opts) (t : node) : Prop :=
   is_tag t = true /\ reduced t /\
   match fo with
   | FPretty ind _ => ws_indent ind = true
-  | FWrap ind _ width => ws_indent ind = true /\ no_lf ind = true /\ (1 <= width)%Z
+  | FWrap ind _ width => ws_indent ind = true /\ (1 <= width)%Z
   end.
 
 (* C03, both serializers: reducing what a reader sees of the root's serialization gives the root back *)
@@ -39,8 +39,8 @@ Proof.
   intros (Ht & Hr & Hf). unfold norm_fmt. rewrite reduce_model_merge.
   destruct fo as [ind align|ind align width]; cbn [fmt_chunk].
   - exact (C03.C03_width0 t ind align Ht Hr Hf).
-  - destruct Hf as (Hi & Hn & Hw).
-    pose proof (C03.C03_wrapped_real ind align width t [] t Hi Hn Hw eq_refl Hr
+  - destruct Hf as (Hi & Hw).
+    pose proof (C03.C03_wrapped_real ind align width t [] t Hi Hw eq_refl Hr
                   ltac:(destruct t; try discriminate; reflexivity)) as H.
     unfold wrap_seen in H. destruct (wrap_real ind align width t []) as [c|] eqn:E; [exact H|].
     unfold wrap_real in E. cbn in E. discriminate.
